@@ -6,7 +6,8 @@ import tempfile
 from engine import gen_states, pool_map
 from readers import run_cli, write_text
 
-SEQS = {1: "ACG", 2: "C", 3: "GNt", 4: "TTGCA"}      # a one-base node (SNP allele), an ambiguous and a soft-masked base
+SEQS = {1: "ACG", 2: "C", 3: "GNt", 4: "TSGWA"}      # a one-base node (SNP allele), an ambiguous and a soft-masked base, the two
+                                                      # IUPAC codes that are their own complement (S = C/G, W = A/T)
 
 
 NAMES = {1: "n1", 2: "HG002#1#JAHKSE01.1", 3: "utg3-l:7", 4: "s10.1_b"}      # GFA segment names are any printable non-blank text
